@@ -124,6 +124,10 @@ def run(ctx):
     from . import iters as IT_
     IT_.check_overrides(ctx, F, "H5.T5", "TagIter")
     ctx.import_prop("C15")
+    # "for every valid header": a valid header is one load() accepts - that load rejects only what C10 says it rejects (exit chain,
+    # magic and checksum predicates) is what makes the accessors reachable for every valid header (seed C11-7b: a checksum
+    # predicate that left the architecture out rejected every valid MIPS32 header)
+    ctx.import_prop("C10", only=lambda o: o.rule in ("A2", "K"), label="valid headers load")
     # requests() of the information-request tag and the header's own payload: their extents are C05's premises for these two kinds
     ctx.import_prop("C05", only=c05.only_header_kinds, label="header kinds")
     return ctx.finish(
